@@ -24,7 +24,7 @@ def _bound_rejection_loops(ex, limit=2):
         ex.stub(_utils.int_from_bits, counted)
 
 
-@ob("C03", "sign_then_verify", quick=[dict(ec=c) for c in toy.SCHNORR_QUICK], thorough=[dict(ec=c) for c in toy.SCHNORR_ALL],
+@ob("C03", "sign_then_verify", quick=[dict(ec="ec23_19")], thorough=[dict(ec=c) for c in ("ec23_19", "ec19_23", "ec19_13")],
     bound="private key q in 1..n-1, one symbolic message byte, 32 symbolic bytes of auxiliary randomness; nonce rejection loop unrolled twice; "
           "toy curves with p = 3 mod 4 (quick: ec19_23, ec23_19; thorough: + ec19_13, ec23_31, ec67_19h4, ec67_29h2)",
     stubs=_STUBS, functions=["btclib.ecc.ssa.sign_", "btclib.ecc.bip340_nonce.bip340_nonce_", "btclib.ecc.bip340_nonce._bip340_nonce_", "btclib.ecc.ssa._sign_",
